@@ -1549,7 +1549,9 @@ pub fn gen_c10(rng: &mut Rng, tier: &str, out: &mut Out) {
     for i in 0..n {
         let text = if i == 1 { threshold_mapping(130) } else if i == 2 { threshold_mapping(300) } else if i == 3 { boundary_mapping() } else if i == 4 { threshold_mapping(600) } else if i == 5 { nonmonotone_mapping(600) }
             else if i % 5 == 4 { gen_mapping(rng, &Cfg::hostile()).text } else { domain_mapping(rng, &Cfg::domain()) };
-        let dom = is_representable(&text);
+        // (reading a *buffer* is in C10's domain whatever mapping it was written from: the reader
+        // model covers every buffer, so nothing here is tagged out-of-domain)
+        let dom = true;
         let u = universe(&text);
         for writer in 0..2 {
             let bytes = if writer == 0 { crate::proto::pin::write_cache_safe(&text) } else { crate::proto::cur::write_cache_safe(&text) };
